@@ -606,6 +606,17 @@ pub fn eof_init_container(fail: bool) -> Bytes {
 /// A straight-line EOF program of `n` balanced snippets (each optionally guarded by a
 /// calldata byte through RJUMPI), ending in STOP. Returns the container.
 pub fn gen_eof_program(rng: &mut Rng, ctx: &GenCtx, n: usize) -> Bytes {
+    gen_eof_program_kind(rng, ctx, n, false)
+}
+
+/// The same generator for an *init* container (an EOF create transaction's or EOFCREATE's
+/// code): RETURN/STOP are not allowed there, the program ends in RETURNCONTRACT of a small
+/// runtime container (the last sub-container).
+pub fn gen_eof_init_program(rng: &mut Rng, ctx: &GenCtx, n: usize) -> Bytes {
+    gen_eof_program_kind(rng, ctx, n, true)
+}
+
+fn gen_eof_program_kind(rng: &mut Rng, ctx: &GenCtx, n: usize, init: bool) -> Bytes {
     let mut a = Asm::new();
     let mut max_stack: u16 = 1;
     let mut uses_sub = false;
@@ -616,7 +627,29 @@ pub fn gen_eof_program(rng: &mut Rng, ctx: &GenCtx, n: usize) -> Bytes {
         let addr = if ctx.addr_pool.is_empty() { Address::ZERO } else { *rng.pick(&ctx.addr_pool) };
         let mut term = false;
         let mut height: u16 = 2;
-        match rng.below(15) {
+        match rng.below(17) {
+            14 | 15 => {
+                // RJUMPV over a sled of NOPs: every table entry and the fall-through land on
+                // stack-neutral, reachable code. The case operand is small, just past the
+                // table, huge (>= 2^63, >= 2^64), or a calldata word.
+                let max_index = *rng.pick(&[0u8, 1, 2, 7]);
+                match rng.below(6) {
+                    0 => b.push_u(rng.below(max_index as u64 + 3)),
+                    1 => b.push(U256::from(1u64) << 63),
+                    2 => b.push(U256::from(u64::MAX - rng.below(3))),
+                    3 => b.push(U256::MAX - U256::from(rng.below(3))),
+                    4 => b.push(U256::from_be_bytes::<32>(rng.bytes(32).try_into().unwrap())),
+                    _ => b.push_u(rng.below(4)).op(CALLDATALOAD),
+                };
+                b.op(0xe2).raw(&[max_index]);
+                for j in 0..=max_index as u16 {
+                    b.raw(&j.to_be_bytes());
+                }
+                for _ in 0..=max_index {
+                    b.op(0x5b);
+                }
+                height = 1;
+            }
             0 | 1 => {
                 b.push_u(rng.below(4)).push(k).op(SSTORE);
             }
@@ -674,7 +707,7 @@ pub fn gen_eof_program(rng: &mut Rng, ctx: &GenCtx, n: usize) -> Bytes {
             _ => {
                 term = true;
                 match rng.below(3) {
-                    0 => {
+                    0 if !init => {
                         b.push_u(small_len(rng)).push_u(small_mem_off(rng)).op(RETURN);
                     }
                     1 => {
@@ -696,10 +729,16 @@ pub fn gen_eof_program(rng: &mut Rng, ctx: &GenCtx, n: usize) -> Bytes {
         }
         a.raw(&b.code);
     }
-    a.op(STOP);
     let _ = max_stack;
     // the declared maximal stack height must be exact: measure it on the produced code
-    let subs = if uses_sub { vec![eof_init_container(init_fails)] } else { vec![] };
+    let mut subs = if uses_sub { vec![eof_init_container(init_fails)] } else { vec![] };
+    if init {
+        // aux data size, aux data offset, RETURNCONTRACT <runtime>
+        a.push_u(0).push_u(0).op(0xee).raw(&[subs.len() as u8]);
+        subs.push(eof_container(&[STOP], 0));
+    } else {
+        a.op(STOP);
+    }
     eof_container_with(&a.code, eof_max_stack(&a.code), &subs)
 }
 
@@ -715,6 +754,11 @@ pub fn eof_max_stack(code: &[u8]) -> u16 {
         h -= info.inputs() as i32;
         h += info.outputs() as i32;
         max = max.max(h);
+        if op == 0xe2 {
+            // RJUMPV: max_index byte + (max_index + 1) two-byte offsets
+            i += 2 + (code.get(i + 1).copied().unwrap_or(0) as usize + 1) * 2;
+            continue;
+        }
         i += 1 + info.immediate_size() as usize;
     }
     max.max(0) as u16
